@@ -7,11 +7,13 @@ import (
 	"os"
 
 	"verifharness/engines/c14"
+	"verifharness/engines/c15"
 	"verifharness/gen"
 )
 
 var engines = map[string]func(*gen.Ctx) error{
 	"c14": c14.Run,
+	"c15": c15.Run,
 }
 
 func main() {
